@@ -92,6 +92,29 @@ func init() {
 		}
 		return nil, ExceptionNewf(KeyError, "%v", args[0])
 	}, 0, "gets(key, default) -> If there is a val corresponding to key, return val, otherwise default")
+
+	StringDictType.Dict["update"] = MustNewMethod("update", func(self Object, args Tuple, kwargs StringDict) (Object, error) {
+		if len(args) > 1 {
+			return nil, ExceptionNewf(TypeError, "update expected at most 1 arguments, got %d", len(args))
+		}
+		sMap := self.(StringDict)
+		if len(args) == 1 {
+			// Make the new items with the dict constructor - this reads
+			// the argument completely before sMap is changed (it may be
+			// sMap itself)
+			other, err := DictNew(StringDictType, args, nil)
+			if err != nil {
+				return nil, err
+			}
+			for k, v := range other.(StringDict) {
+				sMap[k] = v
+			}
+		}
+		for k, v := range kwargs {
+			sMap[k] = v
+		}
+		return None, nil
+	}, 0, "update([E, ]**F) -> None.  Update D from dict/iterable E and F.")
 }
 
 // String to object dictionary
